@@ -128,10 +128,11 @@ def tester_states(sysname, spec):
     return [make_state(c, rand_density(rnd, c.dim), True) for _ in range(spec[2])]
 
 
-def build_tomo(kind, sysname, eq, tst_states, tst_povms, mo):
-    """returns the quara tomography object (cached). mo = number of outcomes of the estimated POVM / MProcess."""
+def build_tomo(kind, sysname, eq, tst_states, tst_povms, mo, fresh=False):
+    """returns the quara tomography object (cached unless fresh=True: then a NEW object nobody has called yet).
+    mo = number of outcomes of the estimated POVM / MProcess."""
     key = ("tomo", kind, sysname, bool(eq), repr(tst_states), repr(tst_povms), mo)
-    if key in _cache:
+    if key in _cache and not fresh:
         return _cache[key]
     from quara.protocol.qtomography.standard.standard_qst import StandardQst
     from quara.protocol.qtomography.standard.standard_povmt import StandardPovmt
@@ -145,7 +146,8 @@ def build_tomo(kind, sysname, eq, tst_states, tst_povms, mo):
         t = StandardQpt(tester_states(sysname, tst_states), tester_povms(sysname, tst_povms), on_para_eq_constraint=eq)
     else:
         t = StandardQmpt(tester_states(sysname, tst_states), tester_povms(sysname, tst_povms), num_outcomes=mo, on_para_eq_constraint=eq)
-    _cache[key] = t
+    if not fresh:
+        _cache[key] = t
     return t
 
 
@@ -178,3 +180,34 @@ def build_truth(kind, sysname, eq, mo, truth):
     for i, K in enumerate(Ks):
         groups[i % mo].append(K)
     return make_mprocess(c, groups, eq)
+
+
+def perturbed(kind, obj, eq, seed, delta):
+    """a NEW object of the same type whose data differ from obj's by delta * (seeded direction with entries in [-1, 1]), inside
+    the equality constraint (trace / identity sum / first HS row(s) unchanged); delta = 0 gives an exact copy.
+    Built with the constructors (is_physicality_required=False), never with the code under test."""
+    from quara.objects.state import State
+    from quara.objects.povm import Povm
+    from quara.objects.gate import Gate
+    from quara.objects.mprocess import MProcess
+    rnd = random.Random(seed)
+    c = obj.composite_system
+
+    def direction(shape):
+        return np.array([rnd.randint(-8, 8) / 8.0 for _ in range(int(np.prod(shape)))], dtype=np.float64).reshape(shape)
+
+    if kind == "qst":
+        d = direction(obj.vec.shape); d[0] = 0.0
+        return State(c, np.array(obj.vec, dtype=np.float64) + delta * d, is_physicality_required=False, on_para_eq_constraint=eq)
+    if kind == "povmt":
+        vecs = [np.array(v, dtype=np.float64) for v in obj.vecs]
+        d = direction(vecs[0].shape)
+        vecs[0] = vecs[0] + delta * d; vecs[1] = vecs[1] - delta * d
+        return Povm(c, vecs, is_physicality_required=False, on_para_eq_constraint=eq)
+    if kind == "qpt":
+        d = direction(obj.hs.shape); d[0, :] = 0.0
+        return Gate(c, np.array(obj.hs, dtype=np.float64) + delta * d, is_physicality_required=False, on_para_eq_constraint=eq)
+    hss = [np.array(h, dtype=np.float64) for h in obj.hss]
+    d = direction(hss[0].shape); d[0, :] = 0.0
+    hss[0] = hss[0] + delta * d
+    return MProcess(c, hss, is_physicality_required=False, on_para_eq_constraint=eq)
